@@ -56,13 +56,21 @@ fn dec(i: i64) -> Option<i64> {
 
 /// Names are handed over the way a programmer writes them: the bare member name. Names that contain a quote or a
 /// backslash have no unambiguous bare form in this API (the engine strips quotes and rewrites backslashes) - None.
+thread_local! { static LENIENT: std::cell::Cell<bool> = const { std::cell::Cell::new(false) }; }
 fn name(n: &Cps) -> Option<String> {
     let s = cps_to_string(n);
-    if s.contains('\'') || s.contains('"') || s.contains('\\') {
+    if !LENIENT.with(|l| l.get()) && (s.contains('\'') || s.contains('"') || s.contains('\\')) {
         None
     } else {
         Some(s)
     }
+}
+/// Like `jpquery`, but names are passed through raw whatever they contain.
+pub fn jpquery_lenient(segs: &[ASeg]) -> Option<JpQuery> {
+    LENIENT.with(|l| l.set(true));
+    let r = jpquery(segs);
+    LENIENT.with(|l| l.set(false));
+    r
 }
 
 fn selector(s: &ASel) -> Option<Selector> {
